@@ -53,7 +53,7 @@ def cls(v):
     return type(v).__name__
 
 
-REQUIRED = (['online:mergesort-3+-inputs', 'online:sort-chunked-3+-chunks', 'online:sort-chunked-3+-chunks-reverse', 'law-pairs', 'law-triples', 'online:sort', 'online:join', 'online:select', 'online:issorted', 'online:mergesort',
+REQUIRED = (['online:sort-with-missing-key-cells', 'online:mergesort-3+-inputs', 'online:sort-chunked-3+-chunks', 'online:sort-chunked-3+-chunks-reverse', 'law-pairs', 'law-triples', 'online:sort', 'online:join', 'online:select', 'online:issorted', 'online:mergesort',
              'nested-vs-flat'] + ['classpair:%s|%s' % (x, y) for x in CLASSES for y in CLASSES])
 
 
@@ -105,6 +105,11 @@ def cases(ctx):
             c['buffersize'] = rng.choice([None, None, 1, 2, 3])
             if c['buffersize'] is not None:
                 t.extend([rng.choice(pool), rng.choice(pool), 'x%d' % r] for r in range(rng.randint(0, 6)))
+            if rng.random() < 0.2:
+                # ragged rows: a key cell the row does not have is ordered as None (and equal to an explicit None)
+                for r_ in t[1:]:
+                    if rng.random() < 0.3:
+                        del r_[rng.randrange(0, 3):]
         if which == 'issorted':
             c['strict'] = rng.random() < 0.4
             if rng.random() < 0.35:
@@ -238,13 +243,15 @@ def _judge_online(case, ctx):
     idx = gen.resolve_key(hdr, key) if key is not None else list(range(len(hdr)))
     keyfn = lambda r: gen.keyval(r, idx)  # noqa: E731
     rows = [tuple(r) for r in table[1:]]
-    if len({cls(r[0]) for r in rows}) > 1:
+    if len({cls(r[0]) for r in rows if r}) > 1:
         ctx.mark_nontrivial()
     sink = _Online()
     out = []
     with probes.ComparableSpy(sink):
         if which == 'sort':
-            got = util.attempt_rows(lambda: petl.sort(table, key, reverse=reverse, buffersize=case.get('buffersize')))
+            got = util.attempt_rows_twice(lambda: petl.sort(table, key, reverse=reverse, buffersize=case.get('buffersize')))
+            if any(len(r) < 3 for r in rows):
+                ctx.seen('online:sort-with-missing-key-cells')
             if isinstance(got, util.Raised):
                 out.append({'kind': 'exception', 'detail': got.text, 'where': got.where})
             else:
